@@ -44,7 +44,7 @@ Section Proofs6.
     intros HF. induction m as [|m IH]; intros j acc r l Hj Hm Hpc Htodo; [lia|].
     destruct (nth_error (plan k o) j) as [[kd' i]|] eqn:P; [|apply nth_error_None in P; lia].
     rewrite (skipn_nth_error _ _ _ P). cbn [solo]. unfold Model.step. rewrite Hpc, Htodo.
-    destruct o as [kd key0|kd key0|kd key0|kd p| |kd|kd]; cbn [sweep_fun] in HF; try discriminate;
+    destruct o as [kd key0|kd key0|kd key0|kd p| |kd|kd|kd key0]; cbn [sweep_fun] in HF; try discriminate;
       inversion HF; subst F; rewrite P; unfold sweep_next;
       destruct (Nat.ltb (S j) (length (plan k _))) eqn:LT.
     - apply Nat.ltb_lt in LT. rewrite (IH (S j) [] _ (goto l (S j) [])); try reflexivity; try lia. exact Htodo.
@@ -142,5 +142,27 @@ Section Proofs6.
     split; [exact A|]. split; [exact B|]. split; [exact C|]. split; [exact D|]. split.
     - intros l kd p rest. apply retain_exact. exact HI.
     - intros l rest. apply clear_exact. exact HI.
+  Qed.
+  (* a get_or_create whose closure panics changes the registry exactly as the same call with a returning
+     closure (on the create path the entry IS inserted before the closure runs); only the outcome differs.
+     Lock poisoning is not part of the state: every accessor recovers the guard, so every later operation
+     behaves as on the same registry reached by the returning call. *)
+  Lemma panicking_closure_as_returning_call (r : reg) (l l' : local) kd key0 rest rest' :
+    pcl l = pcl l' -> todo l = OGetOrCreateP kd key0 :: rest -> todo l' = OGetOrCreate kd key0 :: rest' ->
+    match step r l, step r l' with
+    | Some (r1, l1), Some (r2, l2) =>
+        r1 = r2 /\ pcl l1 = pcl l2 /\
+        ((results l1 = results l /\ results l2 = results l') \/
+         (exists s, results l1 = RPanicked s :: results l /\ results l2 = RSid s :: results l'))
+    | _, _ => False
+    end.
+  Proof.
+    intros Hp Ht Ht'. unfold Model.step. rewrite Hp, Ht, Ht'. destruct (pcl l') as [|j acc].
+    - cbn. auto.
+    - cbv zeta. destruct (find _ _) as [e|].
+      + cbn. split; [reflexivity|]. split; [reflexivity|]. right. exists (snd e). auto.
+      + destruct j; cbn.
+        * auto.
+        * split; [reflexivity|]. split; [reflexivity|]. right. exists (next_sid r). auto.
   Qed.
 End Proofs6.
